@@ -49,6 +49,14 @@ def run_scripts(rng, classes, n, name):
         reg = cls(max_iter=s['max_iter'], iter_atol=float(s['atol']), iter_rtol=0.0, solver_params=lmi.SOLVER, **kw)
         payload = dict(test='altern_script', estimator=cls.__name__, script=s)
         try:
+            if cid % 3 == 2:
+                # history: the same estimator object was fitted before under another script
+                s0 = gen_script(rng)
+                payload['earlier_script_on_same_object'] = s0
+                reg.set_params(max_iter=s0['max_iter'], iter_atol=float(s0['atol']))
+                with ss.Scripted(cls, s0['ans_a'], s0['ans_b'], s0['stop_at']):
+                    reg.fit(X1, n_inputs=nu, episode_feature=True)
+                reg.set_params(max_iter=s['max_iter'], iter_atol=float(s['atol']))
             with ss.Scripted(cls, s['ans_a'], s['ans_b'], s['stop_at']) as sc:
                 reg.fit(X1, n_inputs=nu, episode_feature=True)
                 obs = ss.observe(reg)
